@@ -2,6 +2,7 @@ package main
 
 import (
 	"fmt"
+	"regexp"
 	"go/ast"
 	"go/constant"
 	"go/token"
@@ -918,12 +919,22 @@ func (st *State) bitop(op, a, b string, bits uint, signed bool, what string) str
 			}
 		}
 	}
+	var t string
 	if signed {
-		st.fc.noteAssumption("bitwise " + op + " on signed non-constant operands is uninterpreted in " + what)
-		return st.fc.V.bitFun(st.fc, op, 0, a, b)
+		st.fc.noteAssumption("bitwise " + op + " on signed non-constant operands is an uninterpreted function constrained by arithmetic facts in " + what)
+		t = st.fc.V.bitFun(st.fc, op, 0, a, b)
+	} else {
+		t = st.fc.V.bitFun(st.fc, op, bits, a, b)
 	}
-	t := st.fc.V.bitFun(st.fc, op, bits, a, b)
-	if op == "&" && bits > 16 && !strings.Contains(a+b, "g_q") {
+	if op == "|" && (bits > 16 || signed) && !strings.Contains(a+b, "g_q") {
+		// disjoint bits add up: for every k, a a multiple of 2^k and 0 <= b < 2^k  =>  a | b = a + b (a >= 0)
+		st.fc.V.needPow2 = true
+		for _, k := range st.shiftAmounts(a) {
+			st.facts = st.facts.push(sImp(sAnd(sCmp("<=", "0", k), sCmp("<=", k, "62"), sCmp(">=", a, "0"), sEq(sApp("mod", a, sApp("g_pow2", k)), "0"), sCmp("<=", "0", b), sCmp("<", b, sApp("g_pow2", k))), sEq(t, sAdd(a, b))))
+		}
+		st.fc.noteAssumption("x | y = x + y when x is a multiple of 2^k and 0 <= y < 2^k: arithmetic fact added at uses whose left operand is a shift (not bit-blasted)")
+	}
+	if op == "&" && (bits > 16 || signed) && !strings.Contains(a+b, "g_q") {
 		// arithmetic facts about masking (true for all non-negative a, b):
 		//   b+1 a power of two  =>  a & b = a mod (b+1)
 		//   b = a-1, a > 0      =>  (a & b = 0  <=>  a is a power of two)
@@ -1031,7 +1042,19 @@ func (st *State) convert(v Val, from, to types.Type, pos token.Pos, what string)
 		v.T = to
 		return v
 	case ct == tcString && cf == tcInt:
-		panic(vcErr("string(rune) conversion not supported: " + what))
+		// string(r): the UTF-8 encoding of one rune (invalid values encode U+FFFD)
+		r := v.S
+		invalid := sOr(sCmp("<", r, "0"), sCmp(">", r, "1114111"), sAnd(sCmp("<=", "55296", r), sCmp("<=", r, "57343")))
+		rr := st.define("er", "Int", sIte(invalid, "65533", r))
+		n := st.define("en", "Int", sIte(sCmp("<", rr, "128"), "1", sIte(sCmp("<", rr, "2048"), "2", sIte(sCmp("<", rr, "65536"), "3", "4"))))
+		c := st.fc.fresh("runestr", "(Array Int Int)")
+		div := func(a string, d int64) string { return sApp("div", a, sInt(d)) }
+		mod64 := func(a string) string { return sApp("mod", a, "64") }
+		st.assume(sEq(sSel(c, "0"), sIte(sEq(n, "1"), rr, sIte(sEq(n, "2"), sAdd("192", div(rr, 64)), sIte(sEq(n, "3"), sAdd("224", div(rr, 4096)), sAdd("240", div(rr, 262144)))))))
+		st.assume(sEq(sSel(c, "1"), sIte(sEq(n, "2"), sAdd("128", mod64(rr)), sIte(sEq(n, "3"), sAdd("128", mod64(div(rr, 64))), sAdd("128", mod64(div(rr, 4096)))))))
+		st.assume(sEq(sSel(c, "2"), sIte(sEq(n, "3"), sAdd("128", mod64(rr)), sAdd("128", mod64(div(rr, 64))))))
+		st.assume(sEq(sSel(c, "3"), sAdd("128", mod64(rr))))
+		return mkString(to, c, "0", n)
 	case ct == tcIface:
 		if v.K == KNil {
 			return vInt("0", to)
@@ -1065,4 +1088,15 @@ func (st *State) modFacts(a, b string) {
 		return // inside a quantifier: bound variables cannot be mentioned in path facts
 	}
 	st.facts = st.facts.push(f)
+}
+
+// shiftAmounts returns the shift counts k of subterms (x << k) that define term a (looked up through SSA definitions).
+func (st *State) shiftAmounts(a string) []string {
+	t := st.fc.expandDefs(a, 0)
+	var out []string
+	re := regexp.MustCompile(`\(g_pow2 ([^()]+|\([^()]*\))\)`)
+	for _, m := range re.FindAllStringSubmatch(t, -1) {
+		out = append(out, m[1])
+	}
+	return out
 }
